@@ -260,18 +260,45 @@ Proof.
   - intros Hn. rewrite Hn in H3. cbn in H3. apply nodupb_NoDup. exact H3.
 Qed.
 
-(* agree on a run means: its first draw was made from the state the model predicts, and
-   both runs made the same sequence of draws from the same states and left the same state *)
+(* agree on a run means: its first draw was made from the state the model predicts, both runs
+   made the same sequence of draws from the same states and left the same state, every change of
+   the global generator went through a recorded call and no other generator was created *)
+Lemma only_global_meaning r : only_global r = true -> r_gaps r = 0 /\ r_private r = 0.
+Proof.
+  unfold only_global. intros H. apply andb_true_iff in H. destruct H as [H1 H2].
+  apply Z.eqb_eq in H1. apply Z.eqb_eq in H2. auto.
+Qed.
+
 Lemma agree_genotype_meaning_l c :
   fst (check_genotype c) = true ->
+  (r_gaps (g_a c) = 0 /\ r_private (g_a c) = 0 /\ r_gaps (g_b c) = 0 /\ r_private (g_b c) = 0) /\
   forall k, g_seed c = Some k ->
     r_start (g_a c) = g_ref c /\ r_start (g_b c) = g_ref c
     /\ r_trace (g_a c) = r_trace (g_b c) /\ r_end (g_a c) = r_end (g_b c).
 Proof.
-  unfold check_genotype, model_start, same_draws. cbn [fst]. intros H k Hk. rewrite Hk in H.
+  unfold check_genotype, model_start, same_draws. cbn [fst]. intros H.
+  apply andb_true_iff in H. destruct H as [H Hb]. apply andb_true_iff in H. destruct H as [H Ha].
+  apply only_global_meaning in Ha. apply only_global_meaning in Hb. split; [tauto|].
+  intros k Hk. rewrite Hk in H.
   cbn in H. apply andb_true_iff in H. destruct H as [H H3].
   apply andb_true_iff in H. destruct H as [H1 H2]. apply andb_true_iff in H3. destruct H3 as [H3 H4].
   apply Z.eqb_eq in H1. apply Z.eqb_eq in H2. apply Z.eqb_eq in H3. apply Z.eqb_eq in H4. auto.
+Qed.
+
+(* agree on a simphenotype run: the simulator's generator is default_rng(seed), the replicates
+   start where the previous one stopped, the global generator was left alone and the one
+   generator of PhenoSimulator.__init__ is the only one created *)
+Lemma agree_prun_meaning_l seed ref r :
+  agree_prun seed ref r = true ->
+  (forall k, seed = Some k -> p_start r = ref)
+  /\ model_starts seed ref r = map fst (p_steps r)
+  /\ p_glob r = 0 /\ p_rngs r = 1.
+Proof.
+  unfold agree_prun. intros H.
+  apply andb_true_iff in H. destruct H as [H H4]. apply andb_true_iff in H. destruct H as [H H3].
+  apply andb_true_iff in H. destruct H as [H1 H2].
+  apply Z.eqb_eq in H3. apply Z.eqb_eq in H4. apply zl_eqb_eq in H2. repeat split; try assumption.
+  intros k Hk. rewrite Hk in H1. apply Z.eqb_eq. exact H1.
 Qed.
 
 (* ---------------- the replication loop *)
